@@ -2,7 +2,7 @@
 """Runs quick checks against patched copies of the tree WITHOUT touching /repo or /verif:
 a scratch worktree of /repo HEAD and a scratch copy of /verif whose harness is pointed at it.
 
-usage: tools/alt_matrix.py <patch-dir> <out.json> [--checks C01,C02,...] [--own] [name ...]
+usage: tools/alt_matrix.py <patch-dir> <out.json> [--checks C01,C02,...] [--own] [--map extra.json] [name ...]
   <patch-dir>/<name>/patch.diff is applied (3-way) to the scratch worktree, every check listed is run
   (default: all 20), the result (exit code, first violation/inconclusive line) is recorded.
 Used for (a) behaviour-preserving variants of the tree, where every check must stay silent, and
@@ -21,6 +21,11 @@ if args and args[0] == "--checks":
 if args and args[0] == "--own":  # each patch against the check of its own property (name = <ID><suffix>)
     own = True
     args = args[1:]
+cmap = {}
+if args and args[0] == "--map":  # json file: name -> list of checks (in addition to its own); implies --own
+    cmap = json.load(open(args[1]))
+    own = True
+    args = args[2:]
 names = args or sorted(n for n in os.listdir(pdir) if os.path.exists(os.path.join(pdir, n, "patch.diff")))
 sys.path.insert(0, ROOT)
 from checks_config import CHECKS
@@ -65,7 +70,8 @@ try:
             print(name, "DOES NOT BUILD", flush=True)
             continue
         res.setdefault(name, {})
-        for cid in ([name[:3]] if own else checks):
+        ownid = name[:3] if name[0] == "C" else "C" + name[1:3]
+        for cid in (([ownid] + [x for x in cmap.get(name, []) if x != ownid]) if own else checks):
             r = sh("./check %s quick" % cid, cwd=vf)
             m = re.search(r"^(violation \S+:.*|INCONCLUSIVE:.*|BUILD FAILED.*)$", r.stdout, re.M)
             res[name][cid] = {"exit": r.returncode, "line": (m.group(1)[:400] if m else None)}
